@@ -189,6 +189,14 @@ FIXED_CASES = [
       _q([_grp(0, [(0, 1), (2, 10)])], root_required=[T_AVX], policy='absent'),
       _q([_grp(0, [(0, 1)]), _grp(1, [(2, 10)])], root_forbidden=[T_AVX]),
       _q([_grp(1, [(0, 1)]), _grp(2, [(2, 10)])], same_subtree=[[1, 2]], v=36)]),
+    # list form of 1.10 / 1.11: a sharing provider supplies a class whose id lies BETWEEN two classes of the node (seed C02-g:
+    # the node appeared in two entries of the allocations list)
+    ([('rc_create', 39, 1000), ('rp_create', 39, 1, 1, None), ('inv_set', 39, 1, 0, [_inv(0, 8), _inv(1000, 4)]), ('aggs_set', 39, 1, 1, [3]),
+      ('rp_create', 39, 2, 2, None), ('inv_set', 39, 2, 0, [_inv(2, 100)]), ('traits_set', 39, 2, 1, [MISC]), ('aggs_set', 39, 2, 2, [3])],
+     [_q([_grp(0, [(0, 2), (2, 20), (1000, 1)])], v=10, policy='absent'),
+      _q([_grp(0, [(0, 2), (2, 20), (1000, 1)])], v=11, policy='absent'),
+      _q([_grp(0, [(0, 2), (2, 20), (1000, 1)])], v=12, policy='absent'),
+      _q([_grp(0, [(1000, 1), (2, 20), (0, 2)])], v=16, policy='absent')]),
     # corner 4 (found by the proof of C03_exact_sharing): node 1 in aggregates 1 and 2, sharing disk provider 2 in aggregate 2;
     # member_of=!1 on the unsuffixed group asking DISK_GB only: the code drops the sharing provider under anchor 1
     ([('rp_create', 39, 1, 1, None), ('inv_set', 39, 1, 0, [_inv(0, 8)]), ('aggs_set', 39, 1, 1, [1, 2]),
@@ -634,9 +642,14 @@ def canon_candidates(j, b, v):
                 for rc, amt in body['resources'].items():
                     rows.append([ops.tok_of_uuid(u), b.rcid_of_name(rc), amt])
         else:
+            seen_u = set()
             for x in al:
+                u = ops.tok_of_uuid(x['resource_provider']['uuid'])
+                if u in seen_u:
+                    rows.append([u, -7, 0])        # a provider in two entries of the list form: never equal to a model answer
+                seen_u.add(u)
                 for rc, amt in x['resources'].items():
-                    rows.append([ops.tok_of_uuid(x['resource_provider']['uuid']), b.rcid_of_name(rc), amt])
+                    rows.append([u, b.rcid_of_name(rc), amt])
         maps = sorted([suffix_tok(k), sorted(ops.tok_of_uuid(u) for u in us)] for k, us in ar.get('mappings', {}).items())
         areqs.append([sorted(rows), maps])
     sums = []
